@@ -1394,3 +1394,46 @@ def m_generic_array(ex, st, fr, path, args, m):
 @model(r"^<(?:std::string::)?String as (?:std::convert::)?Into<Box<dyn .*>>>::into$|^<Box<dyn .*> as (?:std::convert::)?From<.*>>::from$")
 def m_box_error(ex, st, fr, path, args, m):
     return Opaque("BoxedError")
+
+
+@model(r"^<&?(?:mut )?(\w+) as (?:std::ops::)?(Add|Sub|Mul|Div|Rem|BitAnd|BitOr|BitXor|Shl|Shr)<&?(\w+)>>::(add|sub|mul|div|rem|bitand|bitor|bitxor|shl|shr)$")
+def m_prim_ops(ex, st, fr, path, args, m):
+    """operator traits on primitives and references to them (dev profile: overflow panics)"""
+    a, b = deref_val(args[0]), deref_val(args[1])
+    if not (isinstance(a, I) and isinstance(b, I)):
+        return NotImplemented
+    op = m.group(2)
+    if a.ty in FLOATS:
+        return binop(op, a, b)
+    if op in ("Add", "Sub", "Mul"):
+        r = binop(op + "WithOverflow", a, b)
+        if ex.decide(st, r.fields[1]):
+            raise Panic(f"attempt to {op.lower() if op != 'Mul' else 'multiply'} with overflow")
+        return r.fields[0]
+    if op in ("Div", "Rem"):
+        if ex.decide(st, binop("Eq", b, I(b.ty, 0))):
+            raise Panic("attempt to divide by zero")
+        if a.ty in SIGNED:
+            w = a.w
+            if ex.decide(st, band(binop("Eq", a, I(a.ty, -(1 << (w - 1)))), binop("Eq", b, I(b.ty, -1)))):
+                raise Panic("attempt to divide with overflow")
+        return binop(op, a, b)
+    return binop(op, a, b)
+
+
+@model(r"^<(\w+) as (?:std::ops::)?(AddAssign|SubAssign|MulAssign)<&?(\w+)>>::(add_assign|sub_assign|mul_assign)$")
+def m_prim_assign_ops(ex, st, fr, path, args, m):
+    from .interp import Loc
+    r = args[0]
+    a, b = deref_val(r), deref_val(args[1])
+    if not (isinstance(a, I) and isinstance(b, I)):
+        return NotImplemented
+    op = m.group(2)[:3]
+    if a.ty in FLOATS:
+        ex.write_loc(Loc(r.cell, r.path), binop(op, a, b))
+        return UNIT
+    res = binop(op + "WithOverflow", a, b)
+    if ex.decide(st, res.fields[1]):
+        raise Panic(f"attempt to {op.lower()} with overflow")
+    ex.write_loc(Loc(r.cell, r.path), res.fields[0])
+    return UNIT
